@@ -104,9 +104,6 @@ package block
 //@   params a b
 //@   pure
 //@   ensures result == bytes_eq(a, b)
-//@ iface github.com/0chain/common/core/util.Node.GetHashBytes
-//@   params self
-//@   pure
 //@ iface 0chain.net/chaincore/block.Chainer.GetStateDB
 //@   params self
 //@   pure
